@@ -59,6 +59,15 @@ def single_assignments(fn: ast.FunctionDef) -> dict[str, ast.AST]:
                 a, b = n.value.args
                 out[q.id] = ast.BinOp(a, ast.FloorDiv(), b)
                 out[r.id] = ast.BinOp(a, ast.Mod(), b)
+        # `a, b = x, y` binds element-wise (when no right-hand element reads one of the targets)
+        if isinstance(n, ast.Assign) and len(n.targets) == 1 and isinstance(n.targets[0], ast.Tuple) and isinstance(n.value, ast.Tuple) \
+                and len(n.targets[0].elts) == len(n.value.elts) and all(isinstance(t, ast.Name) for t in n.targets[0].elts):
+            names = [t.id for t in n.targets[0].elts]  # type: ignore[attr-defined]
+            reads = {x.id for v in n.value.elts for x in ast.walk(v) if isinstance(x, ast.Name)}
+            if not (set(names) & reads) and all(counts.get(t) == 2 for t in names):
+                for t, v in zip(names, n.value.elts):
+                    if t not in params:
+                        out[t] = v
     return out
 
 
